@@ -261,3 +261,19 @@ package sparseindex
 //@     invariant r != nil && r.property != nil && r.property.CoarseIndexFragment > 1 && r.property.CoarseIndexFragment < 4294967296
 //@   loop 2
 //@     invariant mr.Start + 1 < mr.End ==> mr.Start < end && end <= mr.End && step >= 1
+
+// ================================================================ C20: bloom-filter skip index, one filter per block
+// The filter of data block k is written into slot k of the filter file (slot size = the on-disk filter size), whatever
+// the block holds - also when all its values are null: the reader consults slot k for block k, so a shifted filter
+// prunes blocks that contain the queried token.
+//@ prop C20
+//@ func (*BloomFilterWriter).GenBloomFilterData
+//@   call .ProcessTokenizerBatch
+//@     requires [filter_of_block_k_in_slot_k] start == rangeindex * segBfSize
+//@     frame nothing
+//@   call .GetOffsAndLens
+//@     frame nothing
+//@   call Checksum
+//@     frame nothing
+//@   loop 1
+//@     invariant start == (rangeindex + 1) * segBfSize
